@@ -182,3 +182,75 @@ def pd6(model):
         else:
             r.fail(v.call, 'the text of the token may start before the current scan position')
     return r
+
+
+def sp4(model):
+    """fast paths of the scanner"""
+    import re._parser as sre_parse
+    import re._constants as sre_c
+    from .. import tables
+    r = RuleResult('SP4', 'tokens enter the token list of Scanner.scan only through next_token(), '
+                   'or through a fast path whose character class provably excludes every '
+                   'character that can start a special sequence, macro, comment, argument '
+                   'reference, blank or language shorthand', floor=1)
+    sc = model.func('scanner.Scanner.scan')
+    tab, node = tables.parameters_table(model, 'special_tokens')
+    need = set(k[0] for k in tab if isinstance(k, str) and k) | set('\\%#') | set(' \t\n\r\x0b\x0c')
+    for call, kw in tables.language_settings(model):
+        sm = tables.literal(kw['short_macros']) if kw.get('short_macros') is not None else None
+        if isinstance(sm, dict):
+            need |= {k[0] for k in sm if k}
+    other = []
+    for n in iter_scope(sc.node):
+        if isinstance(n, ast.Call) and isinstance(n.func, ast.Attribute) \
+                and n.func.attr in ('append', 'extend', 'insert') and n.args:
+            a = n.args[-1]
+            if isinstance(a, ast.Call) and T.call_name(a) == 'next_token':
+                r.ok(n, 'token obtained from next_token()')
+            elif isinstance(a, ast.Name) and all(
+                    isinstance(v, ast.Call) and T.call_name(v) == 'next_token'
+                    for v in T.resolve_local(model, a)):
+                r.ok(n, 'token obtained from next_token()')
+            else:
+                other.append(n)
+    if not other:
+        return r
+    # a fast path: find the regular expressions of the scanner
+    pats = []
+    for f in model.cls('scanner.Scanner').methods.values():
+        for n in ast.walk(f.node):
+            if isinstance(n, ast.Call) and unparse(n.func) in ('re.compile', 're.match', 're.search') \
+                    and n.args and isinstance(n.args[0], ast.Constant) and isinstance(n.args[0].value, str):
+                pats.append((n, n.args[0].value))
+    if not pats:
+        for n in other:
+            r.undec(n, 'tokens are added outside next_token(); no character class to check')
+        return r
+    for n, pat in pats:
+        try:
+            tree = sre_parse.parse(pat)
+        except Exception:
+            r.undec(n, 'pattern not parsed')
+            continue
+        items = list(tree)
+        if len(items) == 1 and items[0][0] in (sre_c.MAX_REPEAT, sre_c.MIN_REPEAT):
+            sub = list(items[0][1][2])
+            if len(sub) == 1 and sub[0][0] is sre_c.IN:
+                cls = sub[0][1]
+                negated = cls and cls[0][0] is sre_c.NEGATE
+                import re as _re
+                rx = _re.compile('[' + pat[pat.index('[') + 1:pat.rindex(']')] + ']')
+                missing = sorted(c for c in need if rx.match(c))
+                if negated and not missing:
+                    r.ok(n, 'character class excludes all %d active first characters' % len(need),
+                         nontrivial=True)
+                elif negated:
+                    r.fail(n, 'the plain-text fast path of the scanner also swallows %s, which can '
+                           'start a special sequence: it is copied unchanged instead of being '
+                           'replaced' % ', '.join(repr(c) for c in missing),
+                           witness='a%sb' % missing[0])
+                else:
+                    r.undec(n, 'positive character class')
+                continue
+        r.undec(n, 'pattern shape not recognised')
+    return r
